@@ -11,7 +11,7 @@ RULE = ('per front-end (transfer manager x 4 destination kinds, legacy S3Transfe
         'loop in-process): boundary object sizes x small chunk/io-chunk/concurrency/window settings; per range every '
         'sequence of fewer than num_download_attempts retryable stream faults (5 kinds) placed after b bytes for b in '
         'a boundary set, combined with scripted short reads whose chunk boundaries differ between attempts; part '
-        'start/finish order steered by gates; non-trivial = the future reported success and the content oracle compared '
+        'start/finish order steered by gates; also: concurrent download_file calls on one legacy S3Transfer, line windows over the legacy ranged downloader, sequential histories on one manager, NonThreadedExecutor and subscriber flavours; non-trivial = the future reported success and the content oracle compared '
         'destination bytes with the object; distinct = (scenario shape incl. fault plan, interleaving signature)')
 ASSUMPTIONS = [
     'stream faults are raised by the fake response body as the urllib3/socket exceptions botocore translates',
